@@ -158,7 +158,10 @@ func main() {
 	os.Exit(check(prop, tier, spec, only))
 }
 
+func fileExists(p string) bool { _, err := os.Stat(p); return err == nil }
+
 type builder struct {
+	tier     string
 	scratch  string
 	overlays map[string]string // kind -> overlay.json
 	instr    map[string]json.RawMessage
@@ -201,6 +204,12 @@ func (b *builder) overlay(kind string) string {
 }
 
 func (b *builder) bin(harness, kind string, race bool) string {
+	// harnesses with generated sources: (re)generate for the tier before building
+	if gen := filepath.Join(mcRoot, "harness", harness, "gen.py"); fileExists(gen) {
+		if o, err := run(filepath.Join(mcRoot, "harness", harness), "python3", "gen.py", b.tier, "zz_gen_types.go"); err != nil {
+			die("generating sources of harness %s: %v\n%s", harness, err, o)
+		}
+	}
 	key := harness + "/" + kind
 	if race {
 		key += "/race"
@@ -306,6 +315,7 @@ func check(prop, tier string, spec propSpec, only string) int {
 	start := time.Now()
 	seed, _ := strconv.Atoi(os.Getenv("VERIF_SEED"))
 	b := newBuilder()
+	b.tier = tier
 	defer b.cleanup()
 	outDir := filepath.Join(b.scratch, "out")
 	os.MkdirAll(outDir, 0o755)
@@ -529,6 +539,7 @@ func doReplay(path string) int {
 		die("replay file names unknown property %q", w.Property)
 	}
 	bd := newBuilder()
+	bd.tier = "quick"
 	defer bd.cleanup()
 	for _, e := range spec.Engines {
 		if e.Harness == w.Engine || e.Name == w.Engine || len(spec.Engines) == 1 {
